@@ -258,6 +258,7 @@ def cli_solve_run(case, dist, na, seed):
         out = os.path.join(d, "result.json")
         code = "import sys; sys.path.insert(0, %r); from pydcop.dcop_cli import main; sys.argv = ['pydcop'] + sys.argv[1:]; main()" % common.REPO
         argv = [sys.executable, "-W", "ignore", "-c", code, "-t", str(int(T)), "--output", out, "solve", "--algo", "dpop", "-d", darg,
+                "--infinity", "10000",  # the command's default is float('inf'); the instances use 10000 as the API runs do
                 os.path.join(d, "dcop.yaml")]
         t0 = time.time()
         try:
